@@ -327,7 +327,12 @@ def run_prio(ctx: Ctx) -> RuleResult:
         res.finding(so, so.node, 'the priority aggregated upwards (%s) is not the priority of the child that the ordering puts first '
                     '(sort key %s, reverse=%s): the reported optimum and the chosen derivation diverge' % (agg[0].func.id if agg else '?', key, rev),
                     construct='prio:direction')
-    ok = key == ['self.is_empty', '-self.priority', 'self.rule.order']
+    # (compared after expanding properties of PackedNode: `self.is_empty` and its definition written out are the same key)
+    from ..exprs import expand_properties
+    sks = sk.self_name() or 'self'
+    key_x = [norm(expand_properties(pn, e, sks)) for e in ret[0].elts] if ret and isinstance(ret[0], ast.Tuple) else []
+    want_x = [norm(expand_properties(pn, ast.parse(t, mode='eval').body, sks)) for t in ('%s.is_empty' % sks, '-%s.priority' % sks, '%s.rule.order' % sks)]
+    ok = key_x == want_x
     res.ob('%s %s' % (sk.loc(), sk.qual), 'sort key is (is_empty, -priority, rule.order): non-empty first, then priority, then grammar order', ok)
     if not ok:
         res.finding(sk, sk.node, 'PackedNode.sort_key is %s, documented precedence is (is_empty, -priority, rule.order)' % key, construct='prio:sort-key')
@@ -401,7 +406,8 @@ def run_prio(ctx: Ctx) -> RuleResult:
         res.finding(xs, xs.node, 'the dynamic scanner overrides the terminal priority of token nodes', construct='prio:dynamic-term')
     # the prioritizer is enabled when any priority is set
     pi = repo.func('lark.parsers.earley:Parser.__init__')
-    ok = has_pat(pi.body_nodes(), '$r.options.priority is not None') and has_pat(pi.body_nodes(), 'if $t.priority:\n    self.forest_sum_visitor = ForestSumVisitor\n    break') \
+    ok = has_pat(pi.body_nodes(), '$r.options.priority is not None') and (has_pat(pi.body_nodes(), 'if $t.priority:\n    self.forest_sum_visitor = ForestSumVisitor\n    break')
+                                                                             or has_pat(pi.body_nodes(), 'if any($t.priority for $t in $$terms):\n    $me.forest_sum_visitor = ForestSumVisitor')) \
         and has_pat(pi.body_nodes(), "self.lexer_conf.lexer_type != 'basic'")
     res.ob('%s %s' % (pi.loc(), pi.qual), 'the priority pass is enabled by any rule priority, or (dynamic lexers) any terminal priority', ok)
     if not ok:
